@@ -21,6 +21,21 @@ fn latches(op: &OpRec) -> Option<String> {
 
 pub fn check(t: &Trace<'_>, out: &mut CaseOut) -> bool {
     let mut nontrivial = false;
+    // a broker DISCONNECT latches whatever the call that read it returned
+    let latches = |op: &OpRec| -> Option<String> {
+        if op.live_before
+            && !matches!(op.outcome, Outcome::Cancelled | Outcome::Watchdog)
+            && t.w.events[op.ev_call..op.ev_ret.max(op.ev_call)].iter().any(|e| matches!(e, Ev::Consumed { conn, idx } if matches!(t.w.conns[*conn].in_pkts[*idx].pkt, Some(crate::refcodec::SPacket::Disconnect { .. }))
+                // (only while the inbound stream is in step: nothing but whole valid packets before it)
+                && t.w.conns[*conn].in_pkts[..*idx].iter().all(|p| p.pkt.is_some() && p.raw_len <= t.log.cfg.rx)))
+        {
+            return Some(match &op.outcome {
+                Outcome::Err(ErrRepr::Disconnected) => "disconnected".to_string(),
+                o => format!("broker-disconnect-reported-as-{:?}", o).replace(' ', ""),
+            });
+        }
+        latches(op)
+    };
     for ci in t.conns.iter().filter(|c| c.established) {
         let ops: Vec<(usize, &OpRec)> = t.log.ops.iter().enumerate().filter(|(_, o)| o.conn == Some(ci.idx) && o.kind != "connect").collect();
         let Some(pos) = ops.iter().position(|(_, o)| latches(o).is_some()) else { continue };
